@@ -34,6 +34,7 @@ static int record(int kind, const char *path, char *const argv[], char *const en
         c->calls[idx].tid = (long) pthread_self();
     }
     __sync_fetch_and_add(&c->ncalls, 1);
+    c->sl_open_at_exec = c->sl_open;
     if (c->on_call) {
         c->on_call(idx);
     }
@@ -83,6 +84,32 @@ __attribute__((visibility("default"))) int connect(int fd, const struct sockaddr
         }
     }
     return real(fd, addr, len);
+}
+
+/* The optional `syslog` output talks to glibc's syslog(3), whose path to /dev/log cannot be redirected from outside.
+ * With REC_SYSLOG set these three definitions stand in for glibc's: they keep the state glibc would keep (ident pointer,
+ * options, facility, open or not) so that the driver can tell what the caller's later syslog(3) calls would find. */
+#include <stdarg.h>
+#include <stdio.h>
+#include <syslog.h>
+__attribute__((visibility("default"))) void openlog(const char *ident, int option, int facility)
+{
+    if (!getenv("REC_SYSLOG")) { void (*real)(const char *, int, int) = dlsym(RTLD_NEXT, "openlog"); real(ident, option, facility); return; }
+    rec_ctl.sl_open = 1; rec_ctl.sl_opens++; rec_ctl.sl_ident = ident; rec_ctl.sl_opt = option; rec_ctl.sl_fac = facility;
+    snprintf(rec_ctl.sl_ident_copy, sizeof rec_ctl.sl_ident_copy, "%s", ident ? ident : "");
+}
+__attribute__((visibility("default"))) void closelog(void)
+{
+    if (!getenv("REC_SYSLOG")) { void (*real)(void) = dlsym(RTLD_NEXT, "closelog"); real(); return; }
+    rec_ctl.sl_open = 0; rec_ctl.sl_closes++; rec_ctl.sl_ident = NULL; rec_ctl.sl_opt = 0;
+}
+__attribute__((visibility("default"))) void syslog(int pri, const char *fmt, ...)
+{
+    va_list ap; va_start(ap, fmt);
+    if (!getenv("REC_SYSLOG")) { void (*real)(int, const char *, va_list) = dlsym(RTLD_NEXT, "vsyslog"); real(pri, fmt, ap); va_end(ap); return; }
+    rec_ctl.sl_msgs++; rec_ctl.sl_pri = pri;
+    vsnprintf(rec_ctl.sl_last, sizeof rec_ctl.sl_last, fmt, ap);
+    va_end(ap);
 }
 
 #ifndef REC_NO_ALLOC
